@@ -116,6 +116,12 @@ def plan(tier, seed):
                             g.append({"kind": "prim", "xtal": name, "variant": var, "S": S, "pm": pm, "dense": dense,
                                       "snf": snf, "mag": "collinear" if name == "bcc-conv-2" else "none",
                                       "reorder": bool(dense and not snf), "extsym": bool(var == "shifted")})
+        # one atom of the last species carries an index of its own (e.g. Fe, Fe1 with different masses): a centring that maps it
+        # onto a plain atom of the same element does not tile the crystal and must be refused
+        if len(cr[name]["symbols"]) > 1:
+            for S in pm_S[:3]:
+                for pm in ["none", "F", "I", "A", "C", "R", "half", "invS"]:
+                    g.append({"kind": "prim", "xtal": name, "variant": "as-is", "S": S, "pm": pm, "dense": True, "snf": False, "mag": "none", "reorder": False, "extsym": "split"})
         groups.append(g)
     meta = {"alphabet": {"SMALL{-1,0,1}": len(small), "extra_matrices": len(extra), "crystals": len(names),
                          "small_cells": small_cells, "primitive_S": len(pm_S), "PMAT": 10,
@@ -137,7 +143,10 @@ def _xtal(name, variant, seed, extsym=False):
             # extended (indexed) symbols: every second atom of a species gets the suffix "1" if that keeps the
             # centring translations species-preserving, i.e. all atoms of the last species are renamed
             last = v["symbols"][-1]
-            v = dict(v, symbols=[s_ + "1" if s_ == last else s_ for s_ in v["symbols"]])
+            if extsym == "split":
+                v = dict(v, symbols=list(v["symbols"][:-1]) + [last + "1"])
+            else:
+                v = dict(v, symbols=[s_ + "1" if s_ == last else s_ for s_ in v["symbols"]])
         _cache[k] = v
     return _cache[k]
 
